@@ -52,6 +52,8 @@ func alphabet() []op {
 	}
 	a = append(a, op{"addExt", "n2", "e2"}, op{"addHTTP", "n1", ""}, op{"addHTTP", "n2", ""}, op{"addHTTPbusy", "n1", ""}, op{"removeDBfail", "n1", ""},
 		op{"editHTTP", "n1", ""}, op{"remove", "nx", ""},
+		// names that differ from n1 / n2 only in case, or that are a pattern matching them: distinct names
+		op{"addSMB", "N1", ""}, op{"addSMB", "n_", ""},
 		op{"svcUp", "s1", ""}, op{"svcUp", "s2", ""}, op{"svcDown", "s1", ""}, op{"svcDown", "s2", ""},
 		op{"addSvc", "n1", "s1"}, op{"addSvc", "n2", "s2"}, op{"addExC2", "n2", "s1"}, op{"addExC2", "n1", "s1"}, op{"addExC2", "n1", "s2"}, op{"addExC2x2", "x1", "s1"})
 	return a
@@ -322,6 +324,17 @@ func (w *world) enabled(maxRemoves int) []int {
 		case "addHTTPbusy":
 			if w.busy != nil {
 				continue
+			}
+		case "addSMB":
+			if o.name == "N1" || o.name == "n_" {
+				// look-alike names: offered once a listener they resemble exists, not on top of each other
+				have := map[string]bool{}
+				for _, l := range w.ts.T.Listeners {
+					have[l.Name] = true
+				}
+				if !(have["n1"] || have["n2"]) || have["N1"] || have["n_"] {
+					continue
+				}
 			}
 		case "removeDBfail":
 			smb := false
